@@ -220,6 +220,17 @@ class C03(Property):
             with np.errstate(all="ignore"):
                 if cls_name == "PerturbedDroplet2D":
                     rho = d.interface_distance(ang[0].ravel()).reshape(dist.shape)
+                    # the 2-D shape function has a closed documented form: R0 (1 + sum_n a_(2n-1) sin(n phi) + a_(2n) cos(n phi));
+                    # the rendered picture must follow that shape, so the droplet's own shape function is cross-checked against it
+                    amps2 = [float(a) for a in spec["droplet"]["amplitudes"]]
+                    ser = np.ones(dist.shape)
+                    for i2, a2 in enumerate(amps2):
+                        n2 = i2 // 2 + 1
+                        ser = ser + a2 * (np.sin(n2 * ang[0]) if i2 % 2 == 0 else np.cos(n2 * ang[0]))
+                    ser = float(spec["droplet"]["radius"]) * ser
+                    okser = np.isfinite(rho) & np.isfinite(ser)
+                    ctx.require(bool(np.all(np.abs(rho[okser] - ser[okser]) <= 1e-12 * float(spec["droplet"]["radius"]) * (1 + sum(abs(a) for a in amps2)))), "shape-function-differs-from-series:PerturbedDroplet2D", f"interface_distance deviates from the documented series by {float(np.max(np.abs(rho[okser] - ser[okser]))) if okser.any() else None}")
+                    rho = np.where(okser, ser, rho)
                 elif cls_name == "PerturbedDroplet3D":
                     rho = d.interface_distance(ang[0].ravel(), ang[1].ravel()).reshape(dist.shape)
                 else:
